@@ -26,7 +26,10 @@ pub fn fill_to_capacity_with_tokens(
 	num_errors: usize,
 ) -> Result<(), anyhow::Error>
 {
+	#[cfg(not(penne_verif))]
 	let mut rng = rand::rng();
+	#[cfg(penne_verif)]
+	let mut rng = verif_hooks::seeded_rng();
 
 	let base_token_dist = WeightedIndex::new({
 		let mut weights = [0; 256];
@@ -443,4 +446,27 @@ pub fn fill_to_capacity_with_tokens(
 	}
 
 	Ok(())
+}
+
+/// Verification hook (only with `--cfg penne_verif`): lets a harness make the
+/// token fuzzer a function of a seed, so that a failing output can be replayed.
+#[cfg(penne_verif)]
+pub mod verif_hooks
+{
+	use rand::SeedableRng;
+	use std::cell::Cell;
+
+	thread_local! {
+		static SEED: Cell<u64> = Cell::new(0);
+	}
+
+	pub fn set_seed(seed: u64)
+	{
+		SEED.with(|s| s.set(seed));
+	}
+
+	pub(super) fn seeded_rng() -> rand::rngs::StdRng
+	{
+		rand::rngs::StdRng::seed_from_u64(SEED.with(|s| s.get()))
+	}
 }
